@@ -121,6 +121,47 @@ def r12_2(ctx, rc):
         rc.ok({'guard': key}, key=key)
 
 
+def _loop_removes_cache(ctx, F, sg, starts, rm, cparam):
+    """Alternative form: one loop over a statically non-empty list that
+    contains the cache file name removes every element unconditionally, and
+    that loop is on every non-refused path."""
+    for x in sg.nodes:
+        if not (x.kind == 'in' and x.cn.kind == 'for_iter'):
+            continue
+        it = x.cn.ast.iter
+        nonempty = any(isinstance(n, ast.List) and any(
+            isinstance(e, ast.Name) and e.id == cparam for e in n.elts)
+            for n in ast.walk(it)) and isinstance(it, (ast.BinOp, ast.List))
+        if not nonempty:
+            continue
+        tgt = x.cn.ast.target
+        if not isinstance(tgt, ast.Name):
+            continue
+        # the loop is reached on every non-refused path
+        if Q.first_unguarded(sg, starts, lambda y: y.id == x.id,
+                             lambda y: y.id in sg.normal_exits()):
+            continue
+        # the body removes the loop variable unconditionally
+        heads = [h for h in sg.nodes if h.kind == 'out' and
+                 h.cn.kind == 'for_next' and h.cn.ast is x.cn.ast]
+        okb = True
+        for h in heads:
+            body = [d for d, l in h.succ
+                    if isinstance(l, tuple) and l[0] == 'iter']
+
+            def removes_var(y):
+                return Q.is_done(y, rm) and y.call.args and isinstance(
+                    y.call.args[0], ast.Name) and \
+                    y.call.args[0].id == tgt.id
+            seen = sg.reach(body, avoid=removes_var)
+            if any(sg.nodes[m].kind == 'in' and sg.nodes[m].cn is h.cn
+                   for m in seen):
+                okb = False
+        if heads and okb:
+            return True
+    return False
+
+
 def r12_3(ctx, rc):
     F = _clean(ctx)
     sg = ctx.E.super(F, lambda g: False)
@@ -143,6 +184,8 @@ def r12_3(ctx, rc):
     w = Q.first_unguarded(sg, starts, removes_cache,
                           lambda x: x.id in sg.normal_exits())
     key = 'clean removes the cache file on every non-refused path'
+    if w and _loop_removes_cache(ctx, F, sg, starts, rm, cparam):
+        w = None
     if w:
         rc.violation('cache-file-kept | ' + F.qualname,
                      'clean can return normally with the cache file still '
@@ -156,6 +199,9 @@ def r12_3(ctx, rc):
         w = Q.first_unguarded(sg, starts, lambda x: Q.is_done(x, q),
                               lambda x: x.id in sg.normal_exits())
         key = 'clean calls %s on every non-refused path' % name
+        if w and name == '_try_to_remove_file' and _loop_removes_cache(
+                ctx, F, sg, starts, rm, cparam):
+            w = None
         if w:
             rc.violation('clean-step-skipped | ' + name,
                          'clean can return normally without calling ' + name,
